@@ -194,6 +194,12 @@ class Register:
         if step == 0:
             raise JaqalError(f"Slice step of {self.name} cannot be zero.")
 
+        # The source may be sized by a let constant, in which case the
+        # constructor could not check the bounds.
+        source_size = resolve_annotated_value(self.alias_from.size)
+        if start < 0 or (source_size is not None and stop > source_size):
+            raise JaqalError("Index out of range.")
+
         return len(range(start, stop, step))
 
     def resolve_qubit(self, idx, context=None):
